@@ -21,7 +21,8 @@ LEVEL_TEXT = ('Every ray of every fan computed by the real functions is checked 
               '(compute_rays_fancy) must be the whole area, and an unobstructed ray-traced visibility must be all-true. All '
               'areas up to 6x6 (thorough 11x11) x all origins are enumerated with several anchor offsets incl. negative; the '
               'shipped 7x7 view completely. Cached answers are compared with uncached ones after cache_clear() and under '
-              'shuffled query orders.')
+              'shuffled query orders.'
+              ' Also: confusable cache keys, float / numpy-valued equal origins, integer cells, single rays in areas of 1000-4000 cells, every parametrisation of the unobstructed view and the largest possible uniform draw.')
 LEVEL_NOTE = 'Coverage is claimed for the compute_rays_fancy fan only (compute_ray / compute_rays get the per-ray checks).'
 SHARDS = {'quick': 4, 'thorough': 16}
 BUDGET_S = {'quick': 300, 'thorough': 2400}
